@@ -6,6 +6,7 @@ package PKG
 // assignment for one path, written by gosym), assertions are evaluated concretely against the real build.
 
 import (
+	"context"
 	"encoding/hex"
 	"encoding/json"
 	"fmt"
@@ -211,4 +212,22 @@ func verifQuiesce() int {
 		time.Sleep(5 * time.Millisecond)
 	}
 	return runtime.NumGoroutine() - verifBaseGor
+}
+
+// verifCtx natively: event indices cannot be reproduced on the real scheduler; 0 is an already cancelled context,
+// other indices cancel after a proportional delay (the assertions that use it hold for every instant).
+func verifCtx(k uint) context.Context {
+	ctx, cancel := context.WithCancel(context.Background())
+	switch {
+	case k == 0:
+		cancel()
+	case k < 100000:
+		go func() {
+			time.Sleep(time.Duration(k) * 5 * time.Microsecond)
+			cancel()
+		}()
+	default:
+		_ = cancel
+	}
+	return ctx
 }
